@@ -59,15 +59,132 @@ class RuleResult:
 
 
 class Ctx:
-    def __init__(self, facts_dir):
-        self.facts = Facts(facts_dir)
+    def __init__(self, facts_dir, _derived=None):
         self._fn = {}
-        self.core = self.facts.crate('oxmpl')
-        self.py = self.facts.crate('oxmpl_py')
-        self.js = self.facts.crate('oxmpl_js')
         self._callgraph = {}
+        self.inlined_helpers = []        # paths of helpers inlined into their callers in this view
+        self._removed = {}               # path -> impl_adt of the removed helper bodies (their closures stay)
+        if _derived is None:
+            self.facts = Facts(facts_dir)
+            self.core = self.facts.crate('oxmpl')
+            self.py = self.facts.crate('oxmpl_py')
+            self.js = self.facts.crate('oxmpl_js')
+        else:
+            base, core2, removed = _derived
+            self.facts = base.facts
+            self.core = core2
+            self.py = base.py
+            self.js = base.js
+            self._removed = removed
+            self.inlined_helpers = sorted(removed)
+            if hasattr(base, 'tier'):
+                self.tier = base.tier
         from . import planner as _planner
         _planner.set_ctx(self)
+
+    # ------------------------------------------------------------------ second view: private helpers inlined
+    def inline_policy(self):
+        """paths of the private helper functions of the core crate that the second view analyses in the context of
+        their callers (inlined) instead of on their own.  Kept as functions (the vocabulary the rules summarise):
+        motion checkers, path extractors, cost functions, pure neighbour providers, index-returning push helpers."""
+        from . import planner as P
+        mcs = {m.path for m in self.motion_checkers()}
+        planners = self.planners()
+        node_tys = {c['node'] for p in planners for c in p['containers'].values()}
+        owner = {}
+        for p in planners:
+            for m in p['methods']:
+                owner[m.path] = p
+        # functions used as values (fn items) are not inlined: not every use is a direct call
+        as_value = set()
+        for b in self.lib_bodies():
+            for blk in b.blocks:
+                for st in blk['stmts']:
+                    if st['k'] != 'assign':
+                        continue
+                    for o in _operands(st['rv']):
+                        if 'const' in o and 'fn' in o['const']:
+                            as_value.add(o['const']['fn']['path'])
+                t = blk['term']
+                if t['k'] == 'call':
+                    for o in t['args']:
+                        if 'const' in o and 'fn' in o['const']:
+                            as_value.add(o['const']['fn']['path'])
+        out = []
+        for b in self.lib_bodies():
+            if b.kind not in ('Fn', 'AssocFn') or b.is_pub or b.impl_trait or b.name == 'new' or b.path in mcs or \
+                    b.path in as_value or len(b.blocks) > 400:
+                continue
+            ret = b.j.get('ret_ty', '')
+            if ret.startswith('base::planner::Path<'):
+                continue
+            ptys = [b.local_ty(i) for i in range(1, b.arg_count + 1)]
+            if ret == 'f64' and any(nt in t for nt in node_tys for t in ptys):
+                continue                                            # cost function
+            if b.path in self.local_callees(b):
+                continue                                            # recursive
+            p = owner.get(b.path)
+            if p is not None:
+                pushing = any(pu['body'] is b for pu in P.pushes(self, p))
+                if pushing and 'usize' in ret:
+                    continue                                        # returns the index of the node it pushes
+                if ret == 'std::vec::Vec<usize>' and not any(self.reaches_call(b, m) for m in mcs):
+                    from .rules.c05 import neighbour_summary
+                    try:
+                        if neighbour_summary(self, p, self.fn(b)) is not None:
+                            continue                                # pure neighbour provider (summarised by the rules)
+                    except Exception:
+                        pass
+            out.append(b.path)
+        return sorted(out)
+
+    def inlined_view(self):
+        """a derived context whose core crate has every helper of inline_policy() inlined into its callers (bounded
+        depth) and removed as a stand-alone body; None when there is nothing to inline"""
+        from .inline import inline_calls
+        from .facts import Crate
+        paths = set(self.inline_policy())
+        if not paths:
+            return None
+        crate = self.core
+        done = {}
+
+        def pick(cb):
+            return cb.path in paths
+
+        def resolved(b, depth=0):
+            if b.path in done:
+                return done[b.path]
+            done[b.path] = b            # cycle guard
+            nb = inline_calls(b, pick, crate, max_rounds=24, sub=lambda cb: resolved(cb, depth + 1) if depth < 4 else cb)
+            done[b.path] = nb
+            return nb
+        bodies = []
+        used = set()
+        for b in crate.bodies:
+            if b.path in paths and not b.in_test_mod():
+                continue
+            if b.in_test_mod():
+                bodies.append(b.j)
+                continue
+            nb = resolved(b)
+            if nb is not b:
+                used |= getattr(nb, 'inlined_from', set())
+            bodies.append(nb.j)
+        if not used:
+            return None
+        for bj in bodies:
+            for blk in bj['blocks']:
+                t = blk['term']
+                if not blk['cleanup'] and t['k'] == 'call' and t['func'].get('path') in paths:
+                    return None         # inlining bound reached: the view would be incomplete, do not use it
+        j2 = dict(crate.j)
+        j2['bodies'] = bodies
+        core2 = Crate(j2)
+        removed = {p: crate.body(p).j.get('impl_adt') for p in paths}
+        c2 = Ctx(None, _derived=(self, core2, removed))
+        c2.inlined_used = sorted(used)
+        return c2
 
     def fn(self, body):
         k = (body.crate.name, body.crate.is_test, body.path)
@@ -97,8 +214,9 @@ class Ctx:
                 continue
             fields = self.core.adts[adt]['variants'][0]['fields']
             methods = [b for b in self.lib_bodies() if b.j.get('impl_adt') == adt and b.kind == 'AssocFn']
+            prefixes = [m.path for m in methods] + [hp for hp, hadt in self._removed.items() if hadt == adt]
             closures = [b for b in self.lib_bodies() if b.kind == 'Closure' and
-                        any(b.path.startswith(m.path + '::') for m in methods)]
+                        any(b.path.startswith(mp + '::') for mp in prefixes)]
             entry = [b for b in methods if b.impl_trait == PLANNER_TRAIT or (b.impl_trait is None and b.is_pub)]
             module = adt.rsplit('::', 1)[0]
             # node containers: fields of type Vec<N> with N a struct of the same module that has a field of type S
@@ -116,7 +234,8 @@ class Ctx:
                 if not sf:
                     continue
                 conts[f['name']] = {'node': nty, 'state_field': sf[0]['name'],
-                                    'links': [x['name'] for x in nfields if x['ty'] != 'S']}
+                                    'links': [x['name'] for x in nfields if x['ty'] != 'S'],
+                                    'link_tys': {x['name']: x['ty'] for x in nfields if x['ty'] != 'S'}}
             out.append({'adt': adt, 'name': adt.rsplit('::', 1)[1], 'fields': fields, 'methods': methods,
                         'closures': closures, 'entry': entry, 'module': module, 'containers': conts})
         out.sort(key=lambda p: p['adt'])
@@ -220,6 +339,19 @@ class Ctx:
                 out.append(b)
         self._mc = out
         return out
+
+
+def _operands(rv):
+    k = rv['k']
+    if k in ('use', 'cast', 'repeat'):
+        return [rv['op']]
+    if k == 'binop':
+        return [rv['a'], rv['b']]
+    if k == 'unop':
+        return [rv['a']]
+    if k == 'agg':
+        return list(rv['fields'])
+    return []
 
 
 def callee_path(t):
